@@ -191,6 +191,23 @@ def _get_part(mod_name, tier, part_name):
     raise HarnessError(f"no part {part_name} in {mod_name}")
 
 
+def safe_evaluate(part, case):
+    """evaluate(case); an exception that escapes from the package under test through code of the check that did not
+    expect one (innermost frame inside the tree under test) is a finding, not a harness error: the package raised
+    on an input of the property's domain. Exceptions raised by the check's own code stay harness errors."""
+    try:
+        return part.evaluate(case)
+    except Exception as e:   # noqa
+        tb = traceback.extract_tb(e.__traceback__)
+        last = tb[-1] if tb else None
+        root = os.path.realpath(REPO) + os.sep
+        if last is not None and os.path.realpath(last.filename).startswith(root):
+            return Outcome(True, ["exception_escaped_from_the_package"],
+                           [("package_raises_%s_in_%s_where_the_check_expected_none" % (type(e).__name__, last.name),
+                             f"{type(e).__name__}: {e} (at {os.path.relpath(last.filename, root)}:{last.lineno})")])
+        raise
+
+
 def _run_shard(args):
     mod_name, tier, part_name, shard, nshards, seed = args
     try:
@@ -201,7 +218,7 @@ def _run_shard(args):
             for i, case in enumerate(part.enumerate()):
                 if i % nshards != shard:
                     continue
-                acc.add(case, part.evaluate(case))
+                acc.add(case, safe_evaluate(part, case))
         else:
             import hypothesis
             from hypothesis import given
@@ -212,7 +229,7 @@ def _run_shard(args):
             @_hyp_settings(n)
             @given(part.strategy())
             def body(case):
-                acc.add(case, part.evaluate(case))
+                acc.add(case, safe_evaluate(part, case))
             body()
         return ("ok", part_name, shard, acc.export())
     except BaseException:   # noqa
@@ -240,7 +257,7 @@ def _shrink_hyp(args):
         @_hyp_settings(n, shrink=True)
         @given(part.strategy())
         def body(case):
-            out = part.evaluate(case)
+            out = safe_evaluate(part, case)
             for b, d in out.findings:
                 if b == bucket:
                     size = len(jdump(case))
@@ -263,7 +280,7 @@ def _reduce_greedy(part, case, bucket):
     shortening strings anywhere in the case while the bucket still fires."""
     def fires(c):
         try:
-            return any(b == bucket for b, _ in part.evaluate(c).findings)
+            return any(b == bucket for b, _ in safe_evaluate(part, c).findings)
         except Exception:
             return False
 
@@ -347,7 +364,7 @@ def run_check(mod_name, tier, seed, replay=None, only_part=None):
         part = all_parts.get(r["part"])
         if part is None:
             raise HarnessError(f"replay {path}: unknown part {r['part']}")
-        out = part.evaluate(r["case"])
+        out = safe_evaluate(part, r["case"])
         replayed += 1
         for b, d in out.findings:
             findings.setdefault((part.name, b), (0, r["case"], str(d)[:2000], None, path))
@@ -426,7 +443,7 @@ def run_check(mod_name, tier, seed, replay=None, only_part=None):
             try:
                 if part.reducible:
                     case = _reduce_greedy(part, case, bucket)
-                for b, d in part.evaluate(case).findings:
+                for b, d in safe_evaluate(part, case).findings:
                     if b == bucket:
                         detail = str(d)[:2000]
             except Exception:
